@@ -230,6 +230,8 @@ def main() -> int:
     ap.add_argument("--suite", action="store_true")
     ap.add_argument("--check-workers", type=int, default=8)
     ap.add_argument("--timeout", type=int, default=420, help="seconds per check run; a mutant that hangs the check counts as killed(timeout)")
+    ap.add_argument("--recheck", default="", help="results.jsonl of an earlier campaign: re-create its suite-green survivors and run the checks given with --with on them")
+    ap.add_argument("--with", dest="with_checks", default="", help="comma separated check ids for --recheck")
     ap.add_argument("--offset", type=int, default=0, help="rotate the evenly spaced selection (to draw a different sample)")
     args = ap.parse_args()
     out = Path(args.out)
@@ -273,6 +275,26 @@ def main() -> int:
             seen.add(c)
             jobs.append((p["id"], *c))
         print(f"{p['id']}: {len(cands)} sites in {sum(len(v) for v in targets.values())} functions, {len(seen)} chosen", flush=True)
+    if args.recheck:
+        jobs = []
+        seen = set()
+        for line in open(args.recheck):
+            r = json.loads(line)
+            if r.get("result") != "survived" or r.get("suite") != "green":
+                continue
+            src = (REPO / r["file"]).read_text()
+            fn = find_func(ast.parse(src), r["func"])
+            if fn is None:
+                continue
+            for idx, kind, desc in mutation_sites(fn):
+                if desc == r["mutation"] and kind == r.get("kind"):
+                    for chk in args.with_checks.split(","):
+                        key = (chk, r["file"], r["func"], idx, kind)
+                        if chk and chk != r["prop"] and key not in seen:
+                            seen.add(key)
+                            jobs.append((chk, r["file"], r["func"], idx, kind, desc + f" [survivor of {r['prop']}]"))
+                    break
+        print(f"recheck: {len(jobs)} runs", flush=True)
     wts = [make_worktree(f"w{i}") for i in range(args.workers)]
     free = list(range(args.workers))
     results = []
